@@ -1,7 +1,59 @@
-(** C06 - A healthy client applies each event exactly once, in order, mirroring the source. *)
-From Hermes Require Import Model.Objects Model.Client Proofs.Client.
+(** C06 - Healthy client: every event applied exactly once, in order, mirroring the source. *)
+From Hermes Require Import Model.Objects Model.Client Proofs.Client Proofs.ClientHealthy.
 
-(** (theorems on the projection are added below as they are proved) *)
+(** One event on a healthy client (handlers never fail, no trashbin, nothing queued, local
+    cache = mapped projection of the remote cache): the remote cache follows the event, the
+    local cache is again the projection, exactly the owed call is appended to the handler
+    log, nothing is queued, no exception.  For every configuration with unique local
+    attribute names, every state of that form and every event consistent with it. *)
+Theorem C06_one_event : forall c outcome,
+  (forall n, outcome n = HOk) -> cc_retention c = None ->
+  forall r n cs stp prt rty fr e,
+  wf_ccfg c -> added_has_local c e -> consistent r e ->
+  exists stp' prt' n',
+  process_remote c outcome FUEL (hstate r (project c r) n cs stp prt rty fr) e None true false =
+    (hstate (rapply r e) (project c (rapply r e)) n' (cs ++ owed c r e rty) stp' prt' rty fr, true).
+Proof. intros c outcome Hok Hret. exact (healthy_event c outcome Hok Hret). Qed.
+Print Assumptions C06_one_event.
+
+(** A whole delivery of any length: the calls are exactly those owed, one per event that has
+    a local effect, in bus order; both caches end as the replay of the stream and its
+    projection; the saved offset is the one after the last event. *)
+Theorem C06_exactly_once_in_order : forall c outcome,
+  (forall n, outcome n = HOk) -> cc_retention c = None ->
+  forall evs r n cs stp prt rty fr next,
+  wf_ccfg c -> consistent_stream c r evs ->
+  exists stp' prt' n',
+  process_events c outcome (hstate r (project c r) n cs stp prt rty fr) next evs =
+    (hstate (rreplay r evs) (project c (rreplay r evs)) n' (cs ++ owed_all c r evs rty) stp' prt' rty fr, next_after next evs).
+Proof. intros c outcome Hok Hret. exact (healthy_stream c outcome Hok Hret). Qed.
+Print Assumptions C06_exactly_once_in_order.
+
+(** the mapping commutes with applying a change *)
+Theorem C06_mapping_commutes : forall ct d o, NoDup (map fst (ct_amap ct)) ->
+  conv_obj ct (apply_mod d o) = apply_mod (conv_diff ct d) (conv_obj ct o).
+Proof. exact conv_apply_mod. Qed.
+Print Assumptions C06_mapping_commutes.
+
+(** the retry offers only the oldest entry of an object (shared with C07) *)
 Theorem C06_retry_offers_oldest_only : forall q e e',
   q_is_oldest q e = true -> In e' q -> ce_id (q_local e') = ce_id (q_local e) -> (q_num e <= q_num e')%Z.
 Proof. exact oldest_is_minimal. Qed.
+Print Assumptions C06_retry_offers_oldest_only.
+
+(** non-vacuity: one mapped type, an 'added' then a 'modified' of the same object *)
+Definition ex_c : ccfg := CCfg [CType 1 [(10%N, 1%N); (11%N, 2%N)] [] 99] None FKDisabled RDisabled 99 [1%N].
+Definition ex_evs : list (Z * cev) :=
+  [(3%Z, CEv 1 5 (KAdded {[ 1%N := VInt 5; 2%N := VInt 7 ]}) 0 0 false);
+   (4%Z, CEv 1 5 (KModified (MDiff ∅ {[ 2%N := VInt 8 ]} ∅)) 0 0 false)].
+Example C06_hypotheses_satisfiable :
+  wf_ccfg ex_c /\ consistent_stream ex_c ∅ ex_evs /\ length (owed_all ex_c ∅ ex_evs false) = 2%nat.
+Proof.
+  split; [|split].
+  - intros ct [<-|[]]. cbn. repeat constructor; set_solver.
+  - cbn. split; [reflexivity|]. split.
+    { intros ct a Hct Hk. vm_compute in Hct. inversion Hct; subst. inversion Hk; subst. vm_compute. reflexivity. }
+    split; [unfold consistent; cbn; rewrite lookup_insert; eauto|]. split; [|exact I].
+    intros ct a Hct Hk. discriminate Hk.
+  - vm_compute. reflexivity.
+Qed.
